@@ -6,6 +6,16 @@ import PraatModel.Lemmas.Matchers
 
 The long-format reader is regular-expression based; Read.lean models each regular expression by a hand-written matcher
 (compared with `re` itself on every run); Lemmas/Matchers.lean restates the matchers on `List Char`.
+
+* `parseLong_emit` — the whole-file theorem (any number of tiers, also none), hypotheses: `LongNum` numerals, `NoKwLong`
+  (A10: `item [`, `item[`, and the entry separator of the tier's own class), strip-invariant labels, single-line names, no
+  `\r\n`.  NOT needed (proved harmless): labels/names that look like rows (`text = "…"`, `xmin = 5`, `name = "x"`,
+  `class = "IntervalTier"`), quotes followed by blanks and a line break, the other class's separator.
+* (a) `numAfter_written`, `textAfter_dotall`, `textAfter_line`, `scanL_barrier` — the matchers on written rows;
+  (b) `readEntry_iv`, `readEntry_pt`, `readTier_written`; (c) `split_file`; `emitLong_toList`.
+* `parseText_long_emit`, `parseText_short_emit` — through the format sniffing of `parseTextgridStr`, with `_removeBlanks`.
+* `sep_in_row_iff`, `noKwLong_of_no_bracket` — the keyword hypothesis exactly / a simple sufficient condition;
+  `parseLong_keyword_counterexample`, `parseLong_name_newline_counterexample`, `#guard`s — what must be excluded.
 -/
 
 namespace C01
@@ -2205,5 +2215,191 @@ does not match: `ParsingError` -/
 theorem parseLong_name_newline_counterexample :
     isParsingError (Rd.parseLong (Txt.ofString (tgToLong numN ⟨[.P ⟨"a\nb", [], 0, 1⟩], some 0, some 1⟩ 0 1))) = true := by
   decide +kernel
+
+/-! ## through the format sniffing of `parseTextgridStr` (non-JSON path) -/
+
+/-- `"ooTextFile short"`: a text containing it is read with the short-format reader -/
+def sniffL : List Char := "ooTextFile short".toList
+theorem lit_sniff : (lit "ooTextFile short").toList = sniffL := rfl
+
+/-- no name or label contains `ooTextFile short` (the format is chosen by searching the whole file for it; A10) -/
+def NoSniff (t : AnyTier α) : Prop := ∀ s ∈ texts t, ¬ sniffL <:+: s.toList
+
+theorem textRow_free_c (c : Char) (pat ind key : List Char) (s : String) (hq : q ∉ pat) (hc : c ∈ pat) (hind : c ∉ ind)
+    (hkey : c ∉ key) (hc1 : c ≠ ' ') (hc2 : c ≠ '=') (hs : ¬ pat <:+: s.toList) : ¬ pat <:+: textRowL ind key s := by
+  have hne : pat ≠ [] := by intro e; rw [e] at hc; simp at hc
+  intro h
+  have e : textRowL ind key s = (ind ++ (key ++ eqL)) ++ q :: (escapeL s.toList ++ q :: [' ']) := by
+    simp only [textRowL, row, List.append_assoc, List.cons_append, List.nil_append]
+  rw [e] at h
+  rcases infix_sep q pat _ _ hq hne h with h1 | h1
+  · refine not_infix_of_not_mem c pat _ hc ?_ h1
+    simp only [List.mem_append, eqL, List.mem_cons, List.not_mem_nil, or_false, not_or]
+    exact ⟨hind, hkey, hc1, hc2, hc1⟩
+  · rcases infix_sep q pat _ _ hq hne h1 with h2 | h2
+    · exact hs (infix_escape_quote_free pat _ hq hne h2)
+    · exact not_infix_of_not_mem c pat _ hc (by simpa using hc1) h2
+
+theorem tierLines_sniffFree (num : α → String) (hnum : ∀ x, LongNum (num x).toList) (k : Nat) (t : AnyTier α)
+    (hsn : NoSniff t) : ∀ s ∈ tierLines num k t, ¬ sniffL <:+: s := by
+  have hF : 'F' ∈ sniffL := by decide
+  have t2 := notMem_tab2 'F' (by decide)
+  have t3 := notMem_tab3 'F' (by decide)
+  have ix : ∀ j, 'F' ∉ idxL j := fun j => notMem_idxL 'F' j (by decide) (by decide) (by decide)
+  apply tierLines_all num k t (fun s => ¬ sniffL <:+: s)
+  · exact fun j => not_infix_of_not_mem 'F' _ _ hF (ix j)
+  · exact ⟨not_infix_of_not_mem 'F' _ _ hF (by decide), not_infix_of_not_mem 'F' _ _ hF (by decide)⟩
+  · intro n
+    constructor <;> apply not_infix_of_not_mem 'F' _ _ hF <;>
+      simp only [sizeRow, List.mem_append, List.mem_cons, List.not_mem_nil, or_false, not_or] <;>
+      exact ⟨t2, by decide, by decide, digits_no _ n (by decide), by decide⟩
+  · intro j
+    constructor <;> apply not_infix_of_not_mem 'F' _ _ hF <;> simp only [List.mem_append, not_or] <;>
+      exact ⟨t2, by decide, ix j⟩
+  · intro ind key x hind hkey
+    apply not_infix_of_not_mem 'F' _ _ hF
+    simp only [numRowL, eqL, List.mem_append, List.mem_cons, List.not_mem_nil, or_false, not_or]
+    refine ⟨by rcases hind with rfl | rfl <;> assumption, ?_, ⟨by decide, by decide, by decide⟩,
+      notMem_num _ (hnum x) 'F' (by decide), by decide⟩
+    simp only [List.mem_cons, List.not_mem_nil, or_false] at hkey
+    rcases hkey with rfl | rfl | rfl <;> decide
+  · intro ind key s hind hkey hs
+    apply textRow_free_c 'F' sniffL _ _ s (by decide) hF _ _ (by decide) (by decide) (hsn s hs)
+    · rcases hind with rfl | rfl <;> assumption
+    · simp only [List.mem_cons, List.not_mem_nil, or_false] at hkey
+      rcases hkey with rfl | rfl | rfl <;> decide
+
+theorem tierLines_cons (num : α → String) (k : Nat) (t : AnyTier α) :
+    ∃ rest, tierLines num k t = idxL k :: rest := by
+  cases t <;> exact ⟨_, rfl⟩
+
+theorem tiersL_sniffFree (num : α → String) (hnum : ∀ x, LongNum (num x).toList) (k : Nat) (ts : List (AnyTier α))
+    (hsn : ∀ t ∈ ts, NoSniff t) : ¬ sniffL <:+: tiersL num k ts := by
+  induction ts generalizing k with
+  | nil =>
+    intro h
+    have := h.length_le
+    have h16 : sniffL.length = 16 := by decide
+    simp only [tiersL, List.length_nil, h16] at this
+    omega
+  | cons t ts ih =>
+    intro h
+    obtain ⟨rest, hrest⟩ := tierLines_cons num k t
+    have e : tiersL num k (t :: ts) = joinNl ((tabL ++ (itemA ++ idxL k)) :: rest) ++ tiersL num (k + 1) ts := by
+      simp only [tiersL, tierBodyL_lines, hrest, joinNl, List.append_assoc, List.cons_append]
+    rw [e] at h
+    rcases infix_lines sniffL _ _ (by decide) (by decide) h with ⟨s, hs, hin⟩ | hin
+    · simp only [List.mem_cons] at hs
+      rcases hs with rfl | hs
+      · refine not_infix_of_not_mem 'F' _ _ (by decide) ?_ hin
+        simp only [List.mem_append, not_or]
+        exact ⟨notMem_tabL _ (by decide), by decide, notMem_idxL 'F' k (by decide) (by decide) (by decide)⟩
+      · exact tierLines_sniffFree num hnum k t (hsn t (by simp)) s (by rw [hrest]; exact List.mem_cons_of_mem _ hs) hin
+    · exact ih (k + 1) (fun x hx => hsn x (List.mem_cons_of_mem _ hx)) hin
+
+theorem fileLong_sniffFree (num : α → String) (hnum : ∀ x, LongNum (num x).toList) (g : Tg α) (lo hi : α)
+    (hsn : ∀ t ∈ g.tiers, NoSniff t) : ¬ sniffL <:+: fileLong num g lo hi := by
+  intro h
+  have e : fileLong num g lo hi =
+      joinNl (longHdrSegs num lo hi g.tiers.length ++ [itemA ++ "]: ".toList]) ++ tiersL num 0 g.tiers := by
+    have : "]: \n".toList = "]: ".toList ++ ['\n'] := by rfl
+    simp only [fileLong, joinNl_append, joinNl, this, List.append_assoc, List.cons_append, List.nil_append]
+  rw [e] at h
+  rcases infix_lines sniffL _ _ (by decide) (by decide) h with ⟨s, hs, hin⟩ | hin
+  · simp only [List.mem_append, List.mem_cons, List.not_mem_nil, or_false] at hs
+    rcases hs with hs | rfl
+    · simp only [longHdrSegs, List.mem_cons, List.not_mem_nil, or_false] at hs
+      have hF : 'F' ∈ sniffL := by decide
+      rcases hs with rfl | rfl | rfl | rfl | rfl | rfl | rfl
+      · exact infix_of_occs sniffL _ (by decide) hin 0 (by decide)
+      · exact not_infix_of_not_mem 'F' _ _ hF (by decide) hin
+      · exact not_infix_of_not_mem 'F' _ _ hF (by decide) hin
+      · refine not_infix_of_not_mem 'F' _ _ hF ?_ hin
+        simp only [eqL, List.mem_append, List.mem_cons, List.not_mem_nil, or_false, not_or]
+        exact ⟨by decide, ⟨by decide, by decide, by decide⟩, notMem_num _ (hnum lo) _ (by decide), by decide⟩
+      · refine not_infix_of_not_mem 'F' _ _ hF ?_ hin
+        simp only [eqL, List.mem_append, List.mem_cons, List.not_mem_nil, or_false, not_or]
+        exact ⟨by decide, ⟨by decide, by decide, by decide⟩, notMem_num _ (hnum hi) _ (by decide), by decide⟩
+      · exact not_infix_of_not_mem 'F' _ _ hF (by decide) hin
+      · refine not_infix_of_not_mem 'F' _ _ hF ?_ hin
+        simp only [List.mem_append, List.mem_cons, List.not_mem_nil, or_false, not_or]
+        exact ⟨by decide, digits_no _ g.tiers.length (by decide), by decide⟩
+    · exact not_infix_of_not_mem 'F' _ _ (by decide) (by decide) hin
+  · exact tiersL_sniffFree num hnum 0 g.tiers hsn hin
+
+/-- `_removeBlanks` on the expected result -/
+def dropEmpty (includeEmpty : Bool) (r : RawTg) : RawTg :=
+  if includeEmpty then r
+  else { r with tiers := r.tiers.map fun t => { t with entries := t.entries.filter fun e => e.getLast? != some "" } }
+
+/-- **through `parseTextgridStr`'s format sniffing**: a written long-format file is recognised as long (it contains
+`item [` and — when no name or label contains `ooTextFile short` — not that phrase), read back, and with
+`includeEmptyIntervals = False` exactly the entries with empty label are removed -/
+theorem parseText_long_emit (num : α → String) (hnum : ∀ x, LongNum (num x).toList) (g : Tg α) (lo hi : α)
+    (hkw : ∀ t ∈ g.tiers, NoKwLong t) (hlab : ∀ t ∈ g.tiers, StrippedLabels t) (hname : ∀ t ∈ g.tiers, NameLine t)
+    (hcr : ∀ t ∈ g.tiers, NoCRLF t) (hsn : ∀ t ∈ g.tiers, NoSniff t) (includeEmpty : Bool) :
+    Rd.parseText (Txt.ofString (tgToLong num g lo hi)) includeEmpty = .ok (dropEmpty includeEmpty (rawOf num g lo hi)) := by
+  have hfile : Txt.ofString (tgToLong num g lo hi) = (fileLong num g lo hi).toArray := by
+    unfold Txt.ofString; rw [emitLong_toList]
+  have hA : Txt.contains (Txt.ofString (tgToLong num g lo hi)) (lit "ooTextFile short") = false := by
+    rw [hfile, contains_eq _ _ (by decide), lit_sniff, List.toList_toArray]
+    exact findL_none_of_not_infix _ _ (fileLong_sniffFree num hnum g lo hi hsn)
+  have hB : Txt.contains (Txt.ofString (tgToLong num g lo hi)) (lit "item [") = true := by
+    rw [hfile, contains_eq _ _ (by decide), List.toList_toArray]
+    apply findL_isSome_of_infix _ _ (by decide)
+    exact ⟨joinNl (longHdrSegs num lo hi g.tiers.length), "]: \n".toList ++ tiersL num 0 g.tiers, by
+      simp only [fileLong, List.append_assoc]; rfl⟩
+  unfold Rd.parseText
+  simp only [hA, hB, Bool.not_true, Bool.or_self, Bool.false_eq_true, if_false,
+    parseLong_emit num hnum g lo hi hkw hlab hname hcr, bind, Except.bind, dropEmpty]
+  cases includeEmpty <;> rfl
+
+/-- the short-format file through the sniffing: it is read with the short-format reader as long as it does not contain
+`item [` (then `caseB` holds) — names, labels and numerals without `item [` -/
+theorem parseText_short_emit (num : α → String) (hnum : ∀ x, NumWord (num x)) (hnumI : ∀ x, ¬ itA <:+: (num x).toList)
+    (g : Tg α) (lo hi : α) (hne : g.tiers ≠ []) (hkw : ∀ t ∈ g.tiers, NoKw t) (hstr : ∀ t ∈ g.tiers, Stripped' t)
+    (hcr : ∀ t ∈ g.tiers, NoCRLF t) (hit : ∀ t ∈ g.tiers, ∀ s ∈ texts t, ¬ itA <:+: s.toList) (includeEmpty : Bool) :
+    Rd.parseText (Txt.ofString (tgToShort num g lo hi)) includeEmpty = .ok (dropEmpty includeEmpty (rawOf num g lo hi)) := by
+  have hbA : '[' ∈ itA := by decide
+  have hB : Txt.contains (Txt.ofString (tgToShort num g lo hi)) (lit "item [") = false := by
+    rw [ofString_emit, contains_eq _ _ (by decide), List.toList_toArray]
+    apply findL_none_of_not_infix
+    have e : joinNl (hdrSegs num lo hi g.tiers.length) ++ (g.tiers.map (blockOf num)).flatMap blockL =
+        joinNl (hdrSegs num lo hi g.tiers.length ++ (g.tiers.map (blockOf num)).flatMap fun b => kw b.1 :: b.2) ++ [] := by
+      rw [joinNl_append, joinNl_flatMap, List.append_nil]; rfl
+    have e2 : (lit "item [").toList = itA := by rfl
+    rw [e, e2]
+    intro h
+    rcases infix_lines itA _ [] (by decide) (by decide) h with ⟨s, hs, hin⟩ | hin
+    · simp only [List.mem_append, List.mem_flatMap, List.mem_map, List.mem_cons] at hs
+      rcases hs with hs | ⟨b, ⟨t, ht, rfl⟩, rfl | hs⟩
+      · simp only [hdrSegs, List.mem_cons, List.not_mem_nil, or_false] at hs
+        rcases hs with rfl | rfl | rfl | rfl | rfl | rfl | rfl
+        · exact not_infix_of_not_mem '[' _ _ hbA (by decide) hin
+        · exact not_infix_of_not_mem '[' _ _ hbA (by decide) hin
+        · exact not_infix_of_not_mem '[' _ _ hbA (by decide) hin
+        · exact hnumI lo hin
+        · exact hnumI hi hin
+        · exact not_infix_of_not_mem '[' _ _ hbA (by decide) hin
+        · exact not_infix_of_not_mem '[' _ _ hbA (digits_no _ _ (by decide)) hin
+      · refine not_infix_of_not_mem '[' _ _ hbA ?_ hin
+        simp only [blockOf]; cases isI t <;> decide
+      · exact body_all num t (fun s => ¬ itA <:+: s)
+          (fun l hl h' => hit t ht l hl ((sep_in_row_iff itA l (by decide) (by decide)).1 h'))
+          hnumI (fun n => not_infix_of_not_mem '[' _ _ hbA (digits_no _ n (by decide))) s hs hin
+    · have := hin.length_le; simp [itA] at this
+  unfold Rd.parseText
+  simp only [hB, Bool.not_false, Bool.or_true, if_true, parseShort_emit num hnum g lo hi hne hkw hstr hcr, bind, Except.bind,
+    dropEmpty]
+  cases includeEmpty <;> rfl
+
+-- the sniffing hypotheses are needed: a label `ooTextFile short` sends a long file to the short-format reader, a label
+-- `item [` sends a short file to the long-format reader
+#guard !rawEq (Rd.parseText (Txt.ofString (tgToLong numN ⟨[ivT "a" "ooTextFile short"], none, none⟩ 0 9)) true)
+  (rawOf numN ⟨[ivT "a" "ooTextFile short"], none, none⟩ 0 9)
+#guard !rawEq (Rd.parseText (Txt.ofString (tgToShort numN ⟨[ivT "a" "item ["], none, none⟩ 0 9)) true)
+  (rawOf numN ⟨[ivT "a" "item ["], none, none⟩ 0 9)
+#guard rawEq (Rd.parseText (Txt.ofString (tgToLong numN sampleTg 0 5)) false) (dropEmpty false (rawOf numN sampleTg 0 5))
+#guard rawEq (Rd.parseText (Txt.ofString (tgToShort numN sampleTg 0 5)) false) (dropEmpty false (rawOf numN sampleTg 0 5))
 
 end C01
